@@ -272,6 +272,8 @@ def run_case(case):
         gc.collect()
         if world.outcome == "deadlock":
             viol.append({"clause": "hang", "subject": "deadlock", "detail": "simulation deadlocked"})
+        elif common.frozen_violation(world):
+            viol.append(common.frozen_violation(world))
         elif world.outcome not in ("ok", "budget"):
             raise common.HarnessError(f"scenario failed: {world.outcome}: {world.error!r}")
 
